@@ -272,7 +272,9 @@ static void run_section (int tid, const struct sect *s) {
 		const char *api = s->acq == ACQ_TRY ? "nsync_mu_trylock" : "nsync_mu_rtrylock";
 		if (s->acq == ACQ_TRY) RT_OP (api, r = nsync_mu_trylock (&S.mu)); else RT_OP (api, r = nsync_mu_rtrylock (&S.mu));
 		if (rt_op_sleeps () != 0) rt_violation ("trylock-blocked", api, "%s slept %u time(s)", api, rt_op_sleeps ());
-		if (rt_op_steps () > 4) rt_violation ("trylock-blocked", api, "%s took %u atomic steps (it should need at most 3)", api, rt_op_steps ());
+		/* "never blocks": no sleep, and no open-ended spinning either (today's code needs at most 3 atomic steps; a bounded retry
+		   would be legitimate, so the limit is generous) */
+		if (rt_op_steps () > 48) rt_violation ("trylock-blocked", api, "%s took %u atomic steps: it spins instead of failing", api, rt_op_steps ());
 		if (r) { held = 1; writer = (s->acq == ACQ_TRY); enter (writer, api); rt_cover (CV_TRY_OK); }
 		else { rt_cover (CV_TRY_FAIL); rt_mark_nontrivial (); }
 		rt_ev (0x20u | (uint32_t) (r != 0) | (s->acq == ACQ_TRY ? 2u : 0u));
